@@ -24,8 +24,8 @@ func ksplit(s kstr) []string {
 
 type kcode uint64
 
-func klen(c kcode) int          { return int(c >> 56) }
-func kbody(c kcode) uint64      { return uint64(c) & (1<<56 - 1) }
+func klen(c kcode) int     { return int(c >> 56) }
+func kbody(c kcode) uint64 { return uint64(c) & (1<<56 - 1) }
 func kmake(body uint64, n int) kcode {
 	if n < 8 {
 		body &= 1<<(6*uint(n)) - 1
